@@ -70,7 +70,8 @@ def write_if_changed(path, content):
     except FileNotFoundError:
         pass
     os.makedirs(os.path.dirname(path), exist_ok=True)
-    tmp = path + ".tmp%d" % os.getpid()
+    import threading
+    tmp = path + ".tmp%d-%d" % (os.getpid(), threading.get_ident())
     with open(tmp, "wb") as f:
         f.write(content)
     os.replace(tmp, path)
